@@ -531,7 +531,7 @@ def run(prog, ctx):
                                     roots.add(pn6)
                 roots = set(r6 for r6 in roots if h.param(r6) is not None and (h.param(r6).get("ct") or "").endswith("econf_file *"))
                 roles = set(input_role(m, call, h, r) for r in roots)
-                ok, why = ma.is_fresh_expr(h, rhs)
+                ok, why = ma.is_fresh_expr(h, rhs, at=st)
                 if roles == {"override"} and ok:
                     ctx.ok("M6", "%s: on a key match the override's value is stored" % h.name, st.where, "fresh copy of %s" % render(rhs)[:60])
                     # ... and it is the override's FIRST definition (what a lookup in the override returns): the scan ends with the match
